@@ -545,13 +545,23 @@ func refTLSDesc(c *refObj) []int {
 
 const originURL = "http://c19.test"
 
-var hdrKeys = []string{"", "X-A", "X-B", "X-C", "X-D"}
+// key 5 is a NON-canonical header key: only used with the ...NonCanonical setters (mapadd), at both levels
+var hdrKeys = []string{"", "X-A", "X-B", "X-C", "X-D", "x-e"}
 var qryKeys = []string{"", "qa", "qb", "qc", "qd"}
 var formKeys = []string{"", "fa", "fb", "fc", "fd"}
 var pathKeys = []string{"", "pa", "pb", "pc"}
 
-func valStr(v int) string { return "v" + strconv.Itoa(v) }
+// value token 0 is the empty string (a blank request-level value still overrides the client's)
+func valStr(v int) string {
+	if v == 0 {
+		return ""
+	}
+	return "v" + strconv.Itoa(v)
+}
 func valTok(s string) int {
+	if s == "" {
+		return 0
+	}
 	n, err := strconv.Atoi(strings.TrimPrefix(s, "v"))
 	if err != nil {
 		return 9999
